@@ -1,6 +1,10 @@
 """Engine ``components``: C16 Components listings, lookups and events stay
 mutually consistent (DESIGN 3.16)."""
-from zope.interface import Interface, classImplements, providedBy
+from zope.interface import (
+    Interface, classImplements, directlyProvides, implementedBy, implementer,
+    providedBy,
+)
+from zope.interface.interfaces import ComponentLookupError
 from zope.interface import registry as zr
 from zope.interface.adapter import AdapterRegistry
 from zope.interface.registry import Components
@@ -36,6 +40,23 @@ class Comp:
         return None if self.k == 0 else ('made', self.k, self.serial) + tuple(id(x) for x in a)
 
 
+class UFactory:
+    """Utility factory (``registerUtility(factory=...)``): every call makes a new
+    component of the same equality class."""
+
+    def __init__(self, k, hashable):
+        self.k, self.h = k, hashable
+        self.made = []
+
+    def __call__(self):
+        c = Comp(self.k, 1000 + len(self.made), self.h)
+        self.made.append(c)
+        return c
+
+    def __repr__(self):
+        return 'UFactory(%s%s)' % (self.k, '' if self.h else 'u')
+
+
 def run_case(ctx, rng, job):
     big = job['tier'] == 'thorough'
     events = []
@@ -62,6 +83,7 @@ def _run(ctx, rng, big, events):
     objs = [rng.choice(classes)() for _ in range(3)]
     comps = Components('zmon')
     utils = {}        # (prov, name) -> (comp, info)
+    ufac = {}         # (prov, name) -> UFactory or None
     adap = {}         # (req, prov, name) -> (fac, info)
     subs, hand = [], []
     serial = [0]
@@ -97,6 +119,7 @@ def _run(ctx, rng, big, events):
         nreq = tuple(Interface if r is None else r for r in req)
         info = rng.choice(['', 'i'])
         accept = None      # list of acceptable event-kind sequences
+        noevent = False
         where = {'op': op, 'comp': repr(c), 'provided': nm(prov), 'name': name, 'required': nm(req), 'info': info}
         if op == 'reinit':
             if rng.random() < 0.85:
@@ -104,6 +127,7 @@ def _run(ctx, rng, big, events):
             ctx.op('reinit')
             comps.__init__('zmon')
             utils.clear()
+            ufac.clear()
             adap.clear()
             del subs[:]
             del hand[:]
@@ -121,17 +145,41 @@ def _run(ctx, rng, big, events):
                     c, prov = c0, p0                                 # same component, other name
                 else:
                     c = c0                                           # same component, other provided
+            form = rng.choice(['explicit', 'explicit', 'explicit', 'factory', 'inferred', 'noevent', 'named'])
+            if name == '' and form != 'factory':
+                # documented: an empty name is replaced by the component's __component_name__, if it has one
+                name = where['name'] = getattr(c, '__component_name__', '')
             old = utils.get((prov, name))
-            ctx.op('registerUtility', repr(c), nm(prov), name, info)
-            comps.registerUtility(c, prov, name, info)
+            ctx.op('registerUtility', repr(c), nm(prov), name, info, form)
+            fac = None
+            if form == 'factory':
+                fac = UFactory(c.k, c.h)
+                comps.registerUtility(factory=fac, provided=prov, name=name, info=info)
+                c = fac.made[-1]
+            elif form == 'inferred':
+                # provided is taken from what the component provides
+                directlyProvides(c, prov)
+                comps.registerUtility(c, name=name, info=info)
+            elif form == 'named' and name:
+                c.__component_name__ = name
+                comps.registerUtility(c, prov, info=info)
+            elif form == 'noevent':
+                comps.registerUtility(c, prov, name, info, event=False)
+            else:
+                comps.registerUtility(c, prov, name, info)
+            ctx.count('utility_forms[%s]' % form)
             if old is not None and old[0] == c and old[1] == info:
                 accept = [[]]
                 ctx.count('noop_utility_registrations')
             else:
                 accept = [(['U'] if old is not None else []) + ['R']]
+                if form == 'noevent':
+                    noevent = True
+                    accept = [[], ['U']] if old is not None else [[]]
                 if old is not None:
                     ctx.count('replaced_utilities')
                 utils[(prov, name)] = (c, info)
+                ufac[(prov, name)] = fac
                 if sum(1 for (cc, _i) in utils.values() if cc == c) >= 2:
                     ctx.count('same_component_multi_name')
         elif op == 'uu':
@@ -142,8 +190,15 @@ def _run(ctx, rng, big, events):
                 if rng.random() < 0.2:
                     c = newcomp()
             old = utils.get((prov, name))
-            ctx.op('unregisterUtility', repr(c) if usec else None, nm(prov), name)
-            r = comps.unregisterUtility(c if usec else None, prov, name)
+            form = rng.choice(['explicit', 'explicit', 'factory', 'inferred']) if usec else 'explicit'
+            ctx.op('unregisterUtility', repr(c) if usec else None, nm(prov), name, form)
+            if form == 'factory':
+                r = comps.unregisterUtility(factory=UFactory(c.k, c.h), provided=prov, name=name)
+            elif form == 'inferred':
+                directlyProvides(c, prov)
+                r = comps.unregisterUtility(c, name=name)
+            else:
+                r = comps.unregisterUtility(c if usec else None, prov, name)
             should = old is not None and (not usec or old[0] == c)
             ctx.ev()
             if bool(r) != should:
@@ -154,18 +209,43 @@ def _run(ctx, rng, big, events):
                     partial = True
                     ctx.count('partial_removals')
                 del utils[(prov, name)]
+                ufac.pop((prov, name), None)
         elif op == 'ra':
             if adap and rng.random() < 0.3:
                 (nreq, prov, name), (c0, i0) = rng.choice(list(adap.items()))
                 req = nreq
                 if rng.random() < 0.5:
                     c, info = c0, i0
+            form = rng.choice(['explicit', 'explicit', 'explicit', 'inferred', 'class-required', 'noevent', 'named'])
+            if form == 'class-required' and req:
+                # a class among the required specifications stands for its implementation specification
+                k = rng.choice(classes)
+                j = rng.randrange(len(req))
+                req = req[:j] + (k,) + req[j + 1:]
+                nreq = nreq[:j] + (implementedBy(k),) + nreq[j + 1:]
+            if name == '':
+                name = where['name'] = getattr(c, '__component_name__', '')
             old = adap.get((nreq, prov, name))
-            ctx.op('registerAdapter', repr(c), nm(req), nm(prov), name, info)
-            comps.registerAdapter(c, req, prov, name, info)
+            ctx.op('registerAdapter', repr(c), nm(nreq), nm(prov), name, info, form)
+            if form == 'inferred':
+                # required from __component_adapts__, provided from what the factory implements
+                implementer(prov)(c)
+                c.__component_adapts__ = req
+                comps.registerAdapter(c, name=name, info=info)
+            elif form == 'named' and name:
+                c.__component_name__ = name
+                comps.registerAdapter(c, req, prov, info=info)
+            elif form == 'noevent':
+                comps.registerAdapter(c, req, prov, name, info, event=False)
+            else:
+                comps.registerAdapter(c, req, prov, name, info)
+            ctx.count('adapter_forms[%s]' % form)
             adap[(nreq, prov, name)] = (c, info)
             # documented: one Registered per call; strict reading: per registration actually added/removed
-            if old is None:
+            if form == 'noevent':
+                noevent = True
+                accept = [[]]
+            elif old is None:
                 accept = [['R']]
             elif old[0] is c and old[1] == info:
                 accept = [['R'], []]
@@ -179,7 +259,12 @@ def _run(ctx, rng, big, events):
                 c = c0 if rng.random() < 0.6 else newcomp()
             old = adap.get((nreq, prov, name))
             ctx.op('unregisterAdapter', repr(c) if usec else None, nm(req), nm(prov), name)
-            r = comps.unregisterAdapter(c if usec else None, req, prov, name)
+            if usec and rng.random() < 0.25:
+                implementer(prov)(c)
+                c.__component_adapts__ = req
+                r = comps.unregisterAdapter(c, name=name)
+            else:
+                r = comps.unregisterAdapter(c if usec else None, req, prov, name)
             should = old is not None and (not usec or old[0] == c)
             ctx.ev()
             if bool(r) != should:
@@ -245,7 +330,7 @@ def _run(ctx, rng, big, events):
         if got not in accept:
             ctx.violation('events', dict(where, got=got, acceptable=accept))
         # the event must describe the registration that was touched
-        if events and op in ('ru', 'uu'):
+        if events and op in ('ru', 'uu') and not noevent:
             last = events[-1]
             if not describe_ok(last, 'UtilityRegistration', provided=prov, name=name):
                 ctx.violation('event-describes-wrong-registration', dict(where, event=repr(last.object)))
@@ -253,7 +338,7 @@ def _run(ctx, rng, big, events):
                 ctx.violation('event-describes-wrong-component', dict(where, event=repr(last.object)))
             if op == 'ru' and len(events) == 2 and not (events[0].object.component is old[0] or events[0].object.component == old[0]):
                 ctx.violation('unregistered-event-wrong-component', dict(where))
-        if events and op in ('ra', 'ua'):
+        if events and op in ('ra', 'ua') and not noevent:
             if not describe_ok(events[-1], 'AdapterRegistration', provided=prov, name=name, required=nreq):
                 ctx.violation('event-describes-wrong-registration', dict(where, event=repr(events[-1].object)))
         if events and op in ('rs', 'us'):
@@ -271,6 +356,9 @@ def _run(ctx, rng, big, events):
             lu[(r.provided, r.name)] = (r.component, r.info)
         if set(lu) != set(utils) or any(lu[k][0] is not utils[k][0] or lu[k][1] != utils[k][1] for k in lu):
             ctx.violation('listing-utilities', dict(where, got=repr(lu), expected=repr(utils)))
+        for r in comps.registeredUtilities():
+            if r.factory is not ufac.get((r.provided, r.name)):
+                ctx.violation('listing-utilities-factory', dict(where, got=repr(r.factory), expected=repr(ufac.get((r.provided, r.name)))))
         la = {(r.required, r.provided, r.name): (r.factory, r.info) for r in comps.registeredAdapters()}
         if set(la) != set(adap) or any(la[k][0] is not adap[k][0] or la[k][1] != adap[k][1] for k in la):
             ctx.violation('listing-adapters', dict(where, got=repr(la), expected=repr(adap)))
@@ -308,6 +396,13 @@ def _run(ctx, rng, big, events):
                 a, b = comps.queryUtility(p, n, D), fu.lookup((), p, n, D)
                 if a is not b:
                     ctx.violation('queryUtility-vs-fresh', dict(where, provided=nm(p), qname=n, got=repr(a), fresh=repr(b)))
+                try:
+                    g = comps.getUtility(p, n)
+                except ComponentLookupError:
+                    g = D
+                ctx.ev()
+                if g is not b:
+                    ctx.violation('getUtility-vs-fresh', dict(where, provided=nm(p), qname=n, got=repr(g), fresh=repr(b)))
             ctx.ev(2)
             a, b = dict(comps.getUtilitiesFor(p)), dict(fu.lookupAll((), p))
             if set(a) != set(b) or any(a[k] is not b[k] for k in a):
@@ -328,6 +423,19 @@ def _run(ctx, rng, big, events):
             a, b = comps.queryMultiAdapter(obs, p, n, D), fa.queryMultiAdapter(obs, p, n, D)
             if a != b and a is not b:
                 ctx.violation('queryMultiAdapter-vs-fresh', dict(where, got=repr(a), fresh=repr(b)))
+            try:
+                g = comps.getMultiAdapter(obs, p, n)
+            except ComponentLookupError:
+                g = D
+            if g != b and g is not b:
+                ctx.violation('getMultiAdapter-vs-fresh', dict(where, got=repr(g), fresh=repr(b)))
+            if ar == 1:
+                try:
+                    g = comps.getAdapter(obs[0], p, n)
+                except ComponentLookupError:
+                    g = D
+                if g != b and g is not b:
+                    ctx.violation('getAdapter-vs-fresh', dict(where, got=repr(g), fresh=repr(b)))
             a = sorted(comps.getAdapters(obs, p))
             b = sorted((nn, f(*obs)) for nn, f in fa.lookupAll([providedBy(o) for o in obs], p) if f(*obs) is not None)
             if a != b:
